@@ -71,6 +71,7 @@ type Worker struct {
 	absFloatArith    bool
 	splitDiv         bool
 	boundedChans     bool
+	sched            *schedState
 	curFrame         *frame
 	curInstr         ssa.Instruction
 	whereLog         []string
@@ -87,7 +88,6 @@ type Worker struct {
 	uninit          map[*ssa.Global]bool
 	initDone        bool
 	chanCtr         int
-	sched           *scheduler
 	onceDone        map[*Value]bool
 	out             []Value
 	mapOrderFork    bool
@@ -205,7 +205,7 @@ func (w *Worker) needsSkippedInit(g *ssa.Global) bool {
 }
 
 // globals of non-initialised packages that are fine as zero values or are provided by the engine
-var initProvided = map[string]bool{}
+var initProvided = map[string]bool{"os.Interrupt": true} // os.Interrupt: only handed to the stubbed signal.Notify
 
 func refersTo(fn *ssa.Function, g *ssa.Global, seen map[*ssa.Function]bool) bool {
 	if seen[fn] {
